@@ -147,6 +147,11 @@ type vf23Fixture struct {
 	payload    []byte
 	boundaries []int // interesting offsets (child / part boundaries)
 	recoverBy0 bool  // rule #0 alone has enough parts
+	// the rule a full GET restores from (first one with <= p parts missing) lacks all its data parts
+	allDataOfRestoringRuleMissing bool
+	// no rule has its part #0 stored
+	part0MissingEverywhere bool
+	lastMember             []byte // payload of the last split member (v1/v2)
 }
 
 func vf23Key(rng *rand.Rand) *keys.PrivateKey {
@@ -289,7 +294,11 @@ func (w *vf23World) build(rng *rand.Rand, layout string, idx int) *vf23Fixture {
 	var rules []iec.Rule
 	isEC := strings.HasPrefix(layout, "ec")
 	if isEC {
-		for i := 0; i < 1+rng.IntN(2); i++ {
+		nr := 1 + rng.IntN(2)
+		if strings.Contains(layout, "fallback") {
+			nr = 2
+		}
+		for i := 0; i < nr; i++ {
 			ru := iec.Rule{DataPartNum: uint8(1 + rng.IntN(6)), ParityPartNum: uint8(1 + rng.IntN(3))}
 			rules = append(rules, ru)
 			fx.Rules = append(fx.Rules, ru.String())
@@ -308,18 +317,35 @@ func (w *vf23World) build(rng *rand.Rand, layout string, idx int) *vf23Fixture {
 		fx.Len = rng.IntN(64<<10 + 1)
 	}
 	if split {
-		fx.Limit = 1 + rng.IntN(4096)
-		if rng.IntN(3) == 0 {
-			fx.Limit = []int{1, 2, 3, 255, 256, 1024, 4096}[rng.IntN(7)]
+		if strings.HasPrefix(layout, "v1") {
+			fx.Limit = 1 + rng.IntN(4096)
+			if rng.IntN(3) == 0 {
+				fx.Limit = []int{1, 2, 3, 255, 256, 1024, 4096}[rng.IntN(7)]
+			}
+		} else {
+			// the link object (about 41 bytes per member) must fit the limit itself
+			fx.Limit = 90 + rng.IntN(4096-90+1)
+			if rng.IntN(3) == 0 {
+				fx.Limit = []int{128, 255, 256, 1024, 4096}[rng.IntN(5)]
+			}
 		}
-		// at least two members; keep the chain within a few hundred members
+		maxMembers := 40
+		if !strings.HasPrefix(layout, "v1") {
+			maxMembers = min(maxMembers, fx.Limit/44)
+		}
+		if isEC {
+			maxMembers = min(maxMembers, 10)
+		}
 		minLen := fx.Limit + 1
-		maxLen := min(64<<10, fx.Limit*150)
+		maxLen := min(64<<10, fx.Limit*maxMembers)
 		if fx.Len < minLen || fx.Len > maxLen {
 			fx.Len = minLen + rng.IntN(maxLen-minLen+1)
 		}
 		if rng.IntN(4) == 0 { // exact multiples
-			fx.Len = fx.Limit * (2 + rng.IntN(min(6, maxLen/fx.Limit-1)))
+			fx.Len = fx.Limit * (2 + rng.IntN(maxMembers-1))
+			if fx.Len > 64<<10 {
+				fx.Len = fx.Limit * 2
+			}
 		}
 	}
 	fx.payload = verifkit.RandBytes(rng, fx.Len)
@@ -341,6 +367,29 @@ func (w *vf23World) build(rng *rand.Rand, layout string, idx int) *vf23Fixture {
 			}
 			fx.Missing[ri] = rng.Perm(total)[:k]
 			sort.Ints(fx.Missing[ri])
+		}
+	}
+	if isEC {
+		fx.part0MissingEverywhere = true
+		restoring := -1
+		for ri, ru := range rules {
+			has0 := true
+			dataMissing := 0
+			for _, m := range fx.Missing[ri] {
+				if m == 0 {
+					has0 = false
+				}
+				if m < int(ru.DataPartNum) {
+					dataMissing++
+				}
+			}
+			if has0 {
+				fx.part0MissingEverywhere = false
+			}
+			if restoring < 0 && len(fx.Missing[ri]) <= int(ru.ParityPartNum) {
+				restoring = ri
+				fx.allDataOfRestoringRuleMissing = dataMissing == int(ru.DataPartNum)
+			}
 		}
 	}
 	addPartBoundaries := func(base, n int) {
@@ -421,7 +470,10 @@ func (w *vf23World) build(rng *rand.Rand, layout string, idx int) *vf23Fixture {
 		parent := vf23Header(fx.cnr, owner, fx.payload, name)
 		_ = parent.CalculateAndSetID()
 		fx.root = parent.GetID()
-		splitID := object.NewSplitIDFromV2(verifkit.RandBytes(rng, 16))
+		ub := verifkit.RandBytes(rng, 16)
+		ub[6] = ub[6]&0x0f | 0x40 // UUID v4
+		ub[8] = ub[8]&0x3f | 0x80
+		splitID := object.NewSplitIDFromV2(ub)
 		var ids []oid.ID
 		var prev oid.ID
 		nMembers := (fx.Len + fx.Limit - 1) / fx.Limit
@@ -445,7 +497,13 @@ func (w *vf23World) build(rng *rand.Rand, layout string, idx int) *vf23Fixture {
 			if !w.put(ch) {
 				return nil
 			}
+			if os.Getenv("VERIF_DEBUG") != "" {
+				_, e1 := w.eng.Head(context.Background(), oid.NewAddress(fx.cnr, ch.GetID()), true)
+				st, e2 := w.eng.ObjectStatus(context.Background(), oid.NewAddress(fx.cnr, ch.GetID()))
+				fmt.Printf("DEBUG v1 child %d head right after put: %v; status: %+v %v\n", i, e1, st, e2)
+			}
 			bset[min((i+1)*fx.Limit, fx.Len)] = true
+			fx.lastMember = chunk
 		}
 		if !strings.Contains(layout, "nolink") {
 			lk := vf23Header(fx.cnr, owner, nil, "")
@@ -459,6 +517,13 @@ func (w *vf23World) build(rng *rand.Rand, layout string, idx int) *vf23Fixture {
 			if !w.put(lk) {
 				return nil
 			}
+			if os.Getenv("VERIF_DEBUG") != "" {
+				_, e1 := w.eng.Head(context.Background(), oid.NewAddress(fx.cnr, lk.GetID()), false)
+				_, e2 := w.eng.Head(context.Background(), oid.NewAddress(fx.cnr, lk.GetID()), true)
+				_, e3 := w.eng.Head(context.Background(), oid.NewAddress(fx.cnr, ids[0]), false)
+				_, e4 := w.eng.Get(context.Background(), oid.NewAddress(fx.cnr, lk.GetID()))
+				fmt.Printf("DEBUG v1 link head: %v / raw: %v / first child head: %v / get link: %v\n", e1, e2, e3, e4)
+			}
 		}
 	case isEC: // unsplit EC object
 		parent := vf23Header(fx.cnr, owner, fx.payload, name)
@@ -469,6 +534,16 @@ func (w *vf23World) build(rng *rand.Rand, layout string, idx int) *vf23Fixture {
 			return nil
 		}
 		addPartBoundaries(0, fx.Len)
+	}
+	if os.Getenv("VERIF_DEBUG") != "" {
+		_, err := w.eng.Get(context.Background(), oid.NewAddress(fx.cnr, fx.root))
+		var si *object.SplitInfoError
+		if errors.As(err, &si) {
+			i := si.SplitInfo()
+			fmt.Printf("DEBUG fixture %s len=%d limit=%d: split info link=%v last=%v first=%v splitID=%v\n", layout, fx.Len, fx.Limit, !i.GetLink().IsZero(), !i.GetLastPart().IsZero(), !i.GetFirstPart().IsZero(), i.SplitID() != nil)
+		} else {
+			fmt.Printf("DEBUG fixture %s len=%d limit=%d: engine.Get(root) -> %v\n", layout, fx.Len, fx.Limit, err)
+		}
 	}
 	for b := range bset {
 		if b >= 0 {
@@ -618,7 +693,7 @@ func vf23GenRequest(rng *rand.Rand, fx *vf23Fixture, isRep bool) vf23Request {
 func TestVerif_C23(t *testing.T) {
 	r := verifkit.Start(t, "C23", "exploration")
 	defer r.Finish()
-	nWorlds := r.Pick(6, 60)
+	nWorlds := r.Pick(4, 60)
 	objsPerWorld := r.Pick(26, 40)
 	readsPerObj := r.Pick(45, 120)
 	layouts := []string{"whole", "v2-link", "v2-nolink", "v1-link", "v1-nolink", "ec", "ec-lossy", "ec-fallback", "ec-split-link", "ec-split-nolink", "ec-split-lossy-link", "ec-split-lossy-nolink", "ec-lossy"}
@@ -627,6 +702,10 @@ func TestVerif_C23(t *testing.T) {
 	r.Assume("range semantics taken from the API: offset+length beyond the payload, bounds/from starting at or behind the end are unsatisfiable (out of range demanded); inclusive bounds ending behind the payload and from/suffix on an empty payload may be clipped or refused; inverted bounds and zero suffix must fail with any error; zero-length ranges other than 0:0 are not generated")
 	r.Assume("EC GET is driven without the gRPC streaming transport (Prm.WithECTransport unset): the buffered restore path and all range paths of ec.go run, streamECObject does not")
 
+	if l := os.Getenv("VERIF_C23_LAYOUTS"); l != "" { // debugging aid
+		layouts = strings.Split(l, ",")
+		nWorlds, objsPerWorld, readsPerObj = 1, len(layouts), 6
+	}
 	scratch := os.Getenv("VERIF_SCRATCH")
 	if scratch == "" {
 		scratch = t.TempDir()
@@ -671,10 +750,14 @@ func vf23NewWorld(r *verifkit.Run, rng *rand.Rand, dir string) *vf23World {
 	w.local.SetPublicKey(nodeKey.PublicKey().Bytes())
 	w.local.SetNetworkEndpoints("/ip4/10.1.1.1/tcp/8080")
 	w.net = &vf23Net{localPub: nodeKey.PublicKey().Bytes(), byCnr: map[cid.ID]vf23Placement{}}
-	w.eng = engine.New(engine.WithLogger(zap.NewNop()))
+	elg := zap.NewNop()
+	if os.Getenv("VERIF_C23_LAYOUTS") != "" {
+		elg, _ = zap.NewDevelopment()
+	}
+	w.eng = engine.New(engine.WithLogger(elg))
 	for i := 0; i < 1+rng.IntN(2); i++ {
 		_, err := w.eng.AddShard(
-			shard.WithLogger(zap.NewNop()),
+			shard.WithLogger(elg),
 			shard.WithBlobstor(fstree.New(fstree.WithPath(filepath.Join(dir, fmt.Sprintf("fstree%d", i))), fstree.WithDepth(1), fstree.WithNoSync(true))),
 			shard.WithMetaBaseOptions(
 				meta.WithPath(filepath.Join(dir, fmt.Sprintf("meta%d", i))),
@@ -692,8 +775,12 @@ func vf23NewWorld(r *verifkit.Run, rng *rand.Rand, dir string) *vf23World {
 		r.Inconclusive("harness: cannot init engine: " + err.Error())
 		return nil
 	}
+	lg := zap.NewNop()
+	if os.Getenv("VERIF_C23_LAYOUTS") != "" {
+		lg, _ = zap.NewDevelopment()
+	}
 	w.svc = New(w.net,
-		WithLogger(zap.NewNop()),
+		WithLogger(lg),
 		WithLocalStorageEngine(w.eng),
 		WithClientConstructor(vf23NoConns{}),
 		WithKeyStorage(util.NewKeyStorage(&nodeKey.PrivateKey, w.net, w.net)),
@@ -778,9 +865,20 @@ func vf23Read(r *verifkit.Run, w *vf23World, fx *vf23Fixture, rq vf23Request, ca
 	}
 	exp := vf23Reference(fx.payload, rq)
 	oor := err != nil && errors.Is(err, apistatus.ErrObjectOutOfRange)
-	layoutKey := fx.Layout
+	isEC := strings.HasPrefix(fx.Layout, "ec")
 	key := func(sym string) string {
-		return fmt.Sprintf("%s|%s|%s|%s", layoutKey, rq.API, rq.Mode, sym)
+		// a few precisely recognisable failure shapes get their own class
+		switch {
+		case isEC && rq.Mode == "full" && err == nil && len(out.buf) == 0 && fx.Len > 0 && fx.allDataOfRestoringRuleMissing:
+			return "ec|all-data-parts-of-restoring-rule-missing|full-get-returns-empty-object"
+		case isEC && rq.Mode != "full" && err != nil && errors.Is(err, apistatus.ErrObjectNotFound) && fx.part0MissingEverywhere:
+			return "ec|part0-missing-in-every-rule|range-read-object-not-found"
+		case fx.Layout == "v2-nolink" && rq.Mode != "full" && sym == "wrong-bytes|truncated" && len(out.buf) == 0:
+			return "v2-nolink|any-range|walk-back-from-last-part-returns-no-bytes"
+		case fx.Layout == "v1-nolink" && sym == "wrong-bytes|extra-bytes" && len(fx.lastMember) > 0 && bytes.Equal(out.buf[len(out.buf)-min(len(out.buf), len(fx.lastMember)):], fx.lastMember) && len(out.buf) == len(vf23Reference(fx.payload, rq).data)+len(fx.lastMember):
+			return "v1-nolink|range-ends-before-last-member|whole-last-member-appended"
+		}
+		return fmt.Sprintf("%s|%s|%s|%s", fx.Layout, rq.API, rq.Mode, sym)
 	}
 	resClass := "ok"
 	switch {
@@ -830,7 +928,14 @@ func vf23Read(r *verifkit.Run, w *vf23World, fx *vf23Fixture, rq vf23Request, ca
 			for first < len(out.buf) && first < len(exp.data) && out.buf[first] == exp.data[first] {
 				first++
 			}
-			r.Violation(key("wrong-bytes"), fmt.Sprintf("%s %s %d,%d of a %d-byte %s object returned %d bytes, want %d; first difference at +%d (sha256 got %x.. want %x..)", rq.API, rq.Mode, rq.A, rq.B, fx.Len, fx.Layout, len(out.buf), len(exp.data), first, sha256.Sum256(out.buf), sha256.Sum256(exp.data)), desc)
+			sym := "wrong-bytes|different"
+			switch {
+			case len(out.buf) > len(exp.data) && bytes.Equal(out.buf[:len(exp.data)], exp.data):
+				sym = "wrong-bytes|extra-bytes"
+			case len(out.buf) < len(exp.data) && bytes.Equal(out.buf, exp.data[:len(out.buf)]):
+				sym = "wrong-bytes|truncated"
+			}
+			r.Violation(key(sym), fmt.Sprintf("%s %s %d,%d of a %d-byte %s object returned %d bytes, want %d; first difference at +%d (sha256 got %x.. want %x..)", rq.API, rq.Mode, rq.A, rq.B, fx.Len, fx.Layout, len(out.buf), len(exp.data), first, sha256.Sum256(out.buf), sha256.Sum256(exp.data)), desc)
 			return
 		}
 		if exp.orOOR {
